@@ -16,7 +16,10 @@ THEOREMS = {
     "C05": [S + n for n in ["switchs_fires", "switchs_ignores_selector_update", "switchc_fires_on_switch", "switchc_value", "lift_inv_switchc"]],
     "C06": [G + "collect_sound_total", G + "client_never_loses_a_held_object", G + "GcInv.bounded", G + "collect_sound",
             "SodiumVerif.GcScript.script_sound", G + "collectCycles_terminates", G + "collect_frees_only_garbage"],
-    "C07": [G + "collectCycles_terminates", G + "onePass_progress", G + "collect_counts_exact", G + "collect_frees_only_garbage", G + "collect_dtor_once"],
+    "C07": [G + n for n in ["collect_complete_total", "collect_exact", "drop_all_frees_all", "collect_leaves_no_candidate", "collect_complete", "bufinv_init",
+                            "bufinv_newNode", "bufinv_incRef", "bufinv_decRef_handle", "bufinv_addEdge", "bufinv_delEdge", "bufinv_upgradeDrop", "bufinv_collectCycles",
+                            "onePass_frees_garbage", "collectCycles_terminates", "onePass_progress", "collect_dtor_once"]]
+           + ["SodiumVerif.GcScript." + n for n in ["script_complete", "handles_exact", "no_garbage_after_collect", "drop_all_collect_frees_all"]],
     "C09": [S + "solution_extends", S + "fireTable_least", S + "gc_transparent", "SodiumVerif.Sched.transaction_result_unique", "SodiumVerif.Sched.sched_result_unique",
             G + "collect_sound_total"],
     "C10": [S + n for n in ["listenerOutputs_eq", "unlisten_stops", "unlisten_deactivates", "listen_stream", "listen_cell_initial", "listen_cell_later",
@@ -40,7 +43,7 @@ MODULES = {
     "C04": ["SodiumVerif.Props.C04", "SodiumVerif.Props.C13"],
     "C05": ["SodiumVerif.Props.C05"],
     "C06": ["SodiumVerif.Props.C06"],
-    "C07": ["SodiumVerif.Props.C06"],
+    "C07": ["SodiumVerif.Props.C07", "SodiumVerif.Props.C06"],
     "C09": ["SodiumVerif.Props.C09", "SodiumVerif.Props.C06"],
     "C10": ["SodiumVerif.Props.C10"],
     "C11": ["SodiumVerif.Props.C11"],
